@@ -96,6 +96,11 @@ def run_case(case):
             M.write_sbml_model(p1, stochastic_model=case["stochastic"])
             M.write_sbml_model(p2, stochastic_model=case["stochastic"])
         except Exception as e:
+            if "zz_scribbled" in str(e) or "zz_extra" in str(e):
+                # the export tripped over what the harness wrote into ITS OWN lists / dictionaries after the model was built
+                return {"viol": [{"key": "%s/export-follows-callers-containers" % PROPERTY,
+                                  "msg": "export raised %r: the model still refers to the caller's own lists / dictionaries" % (e,)}],
+                        "counters": dict(C), "nontrivial": True}
             C["rejected_at_export"] += 1
             return {"viol": [], "counters": dict(C), "nontrivial": False, "refused": repr(e)[:150]}
         t1 = re.sub(r'bioscrape_generated_model_\d+', "ID", open(p1).read())
